@@ -136,17 +136,19 @@ def declFacts : DeclFacts :=
 
 def facts : Facts := { repr := reprFacts, eval := evalFacts }
 
-/-- fingerprints (extract `FuncHash`) of the functions Model/Const*.lean were transcribed from -/
+/-- fingerprints (extract `FuncHash`) of the functions Model/Const*.lean were transcribed from
+    (round 7, 2992617: convertUntyped and comparison changed for the untyped nil only — nil converts only to nil,
+    `nil == nil` is refused — which no constant of the model is; refreshed after reading the diff) -/
 def sourceHashes : List (String × String) :=
   [("representableConst", "2abe3a5d0e4e7f59"),
-   ("typecheck.convertUntyped", "00278fd04e62eec4"),
+   ("typecheck.convertUntyped", "273f8dbef05b7961"),
    ("typecheck.representable", "a6193981455303bc"),
    ("typecheck.convertConst", "592472b25770db96"),
    ("typecheck.conversion", "19c297363251c31c"),
    ("typecheck.shift", "c067c5e1eb1cf0af"),
    ("typecheck.binaryExpr", "fd21ccf4b175d203"),
    ("typecheck.unaryExpr", "bd8f95c0aa36fc91"),
-   ("typecheck.comparison", "79d751c2afce5ca1"),
+   ("typecheck.comparison", "76b5eb4775f94460"),
    ("typecheck.assignment", "b3fe6cb50a1a0a8c"),
    ("typecheck.assignExpr", "139b1b8b5a842d9c"),
    ("zeroConst", "5f34021706e6e18d"),
